@@ -11,6 +11,7 @@
              | I <nb> (expr <n> stmt*n)*nb <ne> stmt*ne      IF / ELSEIF … / ELSE (ne = 0: no ELSE)
              | W expr <n> stmt*n    WHILE expr DO … END WHILE
              | E<x> <0|1> <nv> lit*nv <n> stmt*n             WHILE [VAR, when 1] @x IN cursor over the rows lit…
+             | Z <n> stmt*n         SOURCE file / EXECUTE 'text' / EXECUTE prepared: the statements run in the current block
              | B | K | Q            BREAK | CONTINUE | EXIT
              | R expr               RETURN expr
              | F<f> <np> param*np <n> stmt*n                 DECLARE f FUNCTION (…) AS BEGIN … END
@@ -105,6 +106,7 @@ partial def pStmt : P Stmt
     | "B" => some (.brk, ts)
     | "K" => some (.cont, ts)
     | "Q" => some (.exit, ts)
+    | "Z" => (pBlock ts).map fun (b, r) => (.inline b, r)
     | "W" =>
       match pExpr ts with
       | some (c, ts1) => (pBlock ts1).map fun (b, r) => (.while c b, r)
